@@ -39,6 +39,75 @@ pub fn run() {
         }
         let a = kv(&line);
         let id: u64 = a["id"].parse().unwrap();
+        if a.get("op").map(|s| s == "sizes").unwrap_or(false) {
+            // messages of very different sizes (single packet ... several MiB) on ONE route of each kind: each arrives once, whole, in
+            // send order; the consumer sees the end only after the last of them
+            let sizes: Vec<usize> = a["sizes"].split(',').map(|x| x.parse().unwrap()).collect();
+            let proxy = RouterProxy::new();
+            let (xtx, xrx) = ipc::channel::<(u32, Vec<u8>)>().unwrap();
+            let (ctx, crx) = ipc::channel::<(u32, Vec<u8>)>().unwrap();
+            let (btx, brx) = ipc::channel::<(u32, Vec<u8>)>().unwrap();
+            let xr = proxy.route_ipc_receiver_to_new_crossbeam_receiver(xrx);
+            let (own_tx, own_rx) = crossbeam_channel::unbounded::<(u32, Vec<u8>)>();
+            proxy.route_ipc_receiver_to_crossbeam_sender(brx, own_tx);
+            let clog: Arc<Mutex<Vec<(u32, usize, bool)>>> = Arc::new(Mutex::new(Vec::new()));
+            let cl = clog.clone();
+            proxy.add_route(
+                crx.to_opaque(),
+                Box::new(move |m| {
+                    if let Ok((q, d)) = m.to::<(u32, Vec<u8>)>() {
+                        let ok = d == payload(id * 1000 + q as u64, d.len());
+                        cl.lock().unwrap().push((q, d.len(), ok));
+                    }
+                }),
+            );
+            // payloads are built first, so that on each route a small message follows a large one back to back
+            let datas: Arc<Vec<Vec<u8>>> = Arc::new(sizes.iter().enumerate().map(|(q, n)| payload(id * 1000 + q as u64, *n)).collect());
+            let mut senders = Vec::new();
+            for tx in [xtx, btx, ctx] {
+                let datas = datas.clone();
+                senders.push(std::thread::spawn(move || {
+                    for (q, d) in datas.iter().enumerate() {
+                        let _ = tx.send((q as u32, d.clone()));
+                    }
+                    // the sender goes: the consumer must still get everything, then see the end
+                }));
+            }
+            let n = sizes.len();
+            let drain = move |r: crossbeam_channel::Receiver<(u32, Vec<u8>)>| {
+                let mut got: Vec<(u32, usize, bool)> = Vec::new();
+                let mut ended = false;
+                let t0 = std::time::Instant::now();
+                while t0.elapsed().as_secs() < 15 {
+                    match r.recv_timeout(std::time::Duration::from_millis(200)) {
+                        Ok((q, d)) => {
+                            let ok = d == payload(id * 1000 + q as u64, d.len());
+                            got.push((q, d.len(), ok));
+                        },
+                        Err(crossbeam_channel::RecvTimeoutError::Disconnected) => {
+                            ended = true;
+                            break;
+                        },
+                        Err(crossbeam_channel::RecvTimeoutError::Timeout) => {},
+                    }
+                }
+                (got, ended)
+            };
+            let (xgot, xend) = drain(xr);
+            let (bgot, bend) = drain(own_rx);
+            for h in senders {
+                let _ = h.join();
+            }
+            let t0 = std::time::Instant::now();
+            while clog.lock().unwrap().len() < n && t0.elapsed().as_secs() < 10 {
+                std::thread::sleep(std::time::Duration::from_millis(2));
+            }
+            std::thread::sleep(std::time::Duration::from_millis(30));
+            let cgot = clog.lock().unwrap().clone();
+            println!("{}", json!({"kind":"sizes","id":id,"sizes":sizes,"new_receiver":{"got":xgot,"ended":xend},"own_sender":{"got":bgot,"ended":bend},"callback":{"got":cgot}}));
+            proxy.shutdown();
+            continue;
+        }
         // plan per route: before,after,drop(0/1),kind(c=callback,x=crossbeam)
         // plan=none: a router that never gets a route before it is stopped
         let plan: Vec<(u32, u32, bool, bool)> = a["plan"]
